@@ -122,6 +122,48 @@ def number_literals():
     return out
 
 
+def number_forms_accepted(samples=40):
+    """numeric literals in every form Excel writes - digits, decimals, leading zeros, a
+    signed exponent - are matched in full by the tokenizer's Number pattern.
+    The live regex is read with atomic groups as plain groups (that can only enlarge its
+    language): a string outside this reading is certainly rejected by the real regex
+    (counterexample, replayed); inclusion is claimed for the plain reading and
+    cross-checked by matching solver-generated members with the real regex."""
+    dig = R.ch(48, 57)
+    digs = z3.Plus(dig)
+    E = z3.Union(R.lit('E'), R.lit('e'))
+    exp = z3.Concat(E, z3.Union(R.lit('+'), R.lit('-')), digs)
+    mant = z3.Union(z3.Concat(digs, z3.Option(z3.Concat(R.lit('.'), digs))), z3.Concat(R.lit('.'), digs))
+    excel = z3.Concat(mant, z3.Option(exp))
+    Lfull, tr = R.lang_fullmatch(O.Number._re)
+    s = z3.String('s')
+    sol = z3.Solver()
+    sol.set('timeout', 120000)
+    sol.add(z3.InRe(s, excel), z3.Length(s) <= 14, z3.Not(z3.InRe(s, Lfull)))
+    r = str(sol.check())
+    if r == 'sat':
+        return {'status': 'counterexample', 'paths': 1, 'queries': 1, 'cex': {'s': sol.model()[s].as_string()},
+                'detail': 'a numeric literal form the tokenizer does not match'}
+    if r != 'unsat':
+        return {'status': 'inconclusive', 'paths': 1, 'queries': 1, 'detail': r}
+    # members of the Excel language, produced by the solver, against the REAL regex
+    gen = z3.Solver()
+    gen.add(z3.InRe(s, excel), z3.Length(s) <= 10)
+    n = 0
+    for _ in range(samples):
+        if str(gen.check()) != 'sat':
+            break
+        w = gen.model()[s].as_string()
+        m = O.Number._re.match(w)
+        if not (m and m.end(0) == len(w)):
+            return {'status': 'counterexample', 'paths': 1, 'queries': n + 2, 'cex': {'s': w},
+                    'detail': 'real regex rejects a member the plain reading accepts (atomic group)'}
+        gen.add(s != z3.StringVal(w), z3.Length(s) != len(w) if n % 3 == 0 else z3.BoolVal(True))
+        n += 1
+    return {'status': 'discharged', 'paths': 1, 'queries': n + 1,
+            'detail': 'unsat; %d solver-generated literals also matched by the real regex (%d atomic groups read as plain)' % (n, tr.atomic)}
+
+
 def filters_progress():
     """every token pattern either fails or consumes at least one character, so the
     tokenizer loop `while expr` terminates: the only zero-length match is the empty
